@@ -107,7 +107,7 @@ func randNamesCSV(r *RNG, n int, prefix string, allowComma bool) []string {
 	if r.Chance(1, 6) {
 		marks := []string{"\"", "\"\"", "a\"b"}
 		if allowComma { // the topranking output itself is ambiguous for IDs with commas: only where outputs are compared as text
-			marks = append(marks, "%2C", "a\"b%2C")
+			marks = append(marks, "%2C", "a\"b%2C", "R\u00e9union%2C", "\u0122%2C\u010a", "\u012c\"")
 		}
 		mark := r.PickStr(marks)
 		for i := range out {
